@@ -149,6 +149,11 @@ func (dr *domainRenewal) next(notBefore, notAfter time.Time) time.Duration {
 		threshold = min(dr.m.RenewBefore, 30*24*time.Hour)
 	}
 	maxJitter := min(threshold/10, time.Hour)
+	if maxJitter <= 0 {
+		// Thresholds below 10ns leave no room for jitter; Int63n panics on 0
+		// (and would leave pseudoRand locked).
+		maxJitter = 1
+	}
 	jitter := pseudoRand.int63n(int64(maxJitter))
 	renewAt := notAfter.Add(-(threshold - time.Duration(jitter)))
 	renewWait := renewAt.Sub(dr.m.now())
